@@ -142,6 +142,18 @@ func cmdVerify(args []string) {
 						bad++
 					}
 					fmt.Printf("    %-8s %s  (%d instance(s), %d failing)\n", st, n, len(obs), nf)
+					if obs[0].Cover && *verbose {
+						for _, ob := range obs {
+							if ob.Status == "unsat" {
+								fmt.Printf("        infeasible path %s\n", ob.Path)
+								if *dump != "" {
+									os.MkdirAll(*dump, 0o755)
+									fnm := fmt.Sprintf("%s/cover_%s.smt2", *dump, strings.ReplaceAll(ob.Path, ">", "_"))
+									os.WriteFile(fnm, []byte(ob.SMT(true)), 0o644)
+								}
+							}
+						}
+					}
 				}
 				if nf > 0 {
 					for i, ob := range obs {
